@@ -10,6 +10,32 @@ import sys
 import traceback
 
 
+def install_reach(build_dir):
+    """sys.monitoring PY_START (disabled per code object after the first
+    hit): which functions of the package under test this worker entered.
+    Evidence only - never gates a verdict."""
+    reached = set()
+    mon = getattr(sys, "monitoring", None)
+    if mon is None:
+        return reached
+    prefix = os.path.join(os.path.realpath(build_dir), "gtirb") + os.sep
+    tool = mon.PROFILER_ID
+
+    def on_start(code, offset):
+        fn = code.co_filename
+        if fn.startswith(prefix) and "_pb2" not in fn:
+            reached.add("%s:%s" % (fn[len(prefix):], code.co_qualname))
+        return mon.DISABLE
+
+    try:
+        mon.use_tool_id(tool, "gtmon-reach")
+        mon.register_callback(tool, mon.events.PY_START, on_start)
+        mon.set_events(tool, mon.events.PY_START)
+    except Exception:
+        pass
+    return reached
+
+
 def main():
     args = json.loads(sys.argv[1])
     build_dir = args["build_dir"]
@@ -30,6 +56,7 @@ def main():
                 "gtirb imported from %s, not from the working-tree build %s"
                 % (real, build_dir))
         from gtmon.ctx import Ctx
+        reached = install_reach(build_dir)
 
         mod = importlib.import_module("gtmon.props." + args["prop"].lower())
         ctx = Ctx(args["prop"], args["tier"], args["seed"], args["worker"],
@@ -54,6 +81,7 @@ def main():
 
         out["protobuf_backend"] = api_implementation.Type()
         out["gtirb_file"] = real
+        out["functions_reached"] = sorted(reached)
     except BaseException as e:  # report, never hang the parent
         out["fatal"] = "%s: %s\n%s" % (
             type(e).__name__, e, traceback.format_exc()[-4000:])
